@@ -45,6 +45,29 @@ func init() {
 		"fmt.Print":   func(fr *frame, a []value) value { return tuple{fr.in.tc.Const(64, 0), iface{}} },
 
 		"reflect.TypeOf":            extReflectTypeOf,
+		"(*reflect.rtype).Comparable": func(fr *frame, a []value) value {
+			return fr.in.tc.Bool(types.Comparable(rtypeOf(a[0])))
+		},
+		"(*reflect.rtype).Kind": func(fr *frame, a []value) value {
+			return fr.in.tc.Const(64, uint64(reflectKind(rtypeOf(a[0]))))
+		},
+		"(*reflect.rtype).Elem": func(fr *frame, a []value) value {
+			switch u := rtypeOf(a[0]).Underlying().(type) {
+			case *types.Pointer:
+				return fr.in.rtypeIface(u.Elem())
+			case *types.Slice:
+				return fr.in.rtypeIface(u.Elem())
+			case *types.Array:
+				return fr.in.rtypeIface(u.Elem())
+			case *types.Map:
+				return fr.in.rtypeIface(u.Elem())
+			}
+			fr.in.targetPanicStr("reflect: Elem of invalid type")
+			return nil
+		},
+		"(*reflect.rtype).String": func(fr *frame, a []value) value {
+			return fr.in.strConst(rtypeOf(a[0]).String())
+		},
 		"reflect.New":               extReflectNew,
 		"reflect.ValueOf":           extReflectValueOf,
 		"reflect.DeepEqual":         extReflectDeepEqual,
@@ -289,11 +312,72 @@ func (in *Interp) rtypeIface(t types.Type) iface {
 	return iface{t: types.NewPointer(in.eng.namedType("reflect", "rtype")), v: rtype{t}}
 }
 
+// reflectKind: the reflect.Kind number of a go/types type.
+func reflectKind(t types.Type) int {
+	switch u := t.Underlying().(type) {
+	case *types.Basic:
+		switch u.Kind() {
+		case types.Bool:
+			return 1
+		case types.Int:
+			return 2
+		case types.Int8:
+			return 3
+		case types.Int16:
+			return 4
+		case types.Int32:
+			return 5
+		case types.Int64:
+			return 6
+		case types.Uint:
+			return 7
+		case types.Uint8:
+			return 8
+		case types.Uint16:
+			return 9
+		case types.Uint32:
+			return 10
+		case types.Uint64:
+			return 11
+		case types.Uintptr:
+			return 12
+		case types.Float32:
+			return 13
+		case types.Float64:
+			return 14
+		case types.String:
+			return 24
+		case types.UnsafePointer:
+			return 26
+		}
+	case *types.Array:
+		return 17
+	case *types.Chan:
+		return 18
+	case *types.Signature:
+		return 19
+	case *types.Interface:
+		return 20
+	case *types.Map:
+		return 21
+	case *types.Pointer:
+		return 22
+	case *types.Slice:
+		return 23
+	case *types.Struct:
+		return 25
+	}
+	return 0
+}
+
 func extReflectTypeOf(fr *frame, args []value) value {
 	return fr.in.rtypeIface(args[0].(iface).t)
 }
 
 func rtypeOf(v value) types.Type {
+	if rt, ok := v.(rtype); ok { // method receiver (the interface's dynamic value)
+		return rt.t
+	}
 	it := v.(iface)
 	if it.t == nil {
 		panic(targetPanic{iface{t: types.Typ[types.String], v: Str{}}})
